@@ -89,7 +89,7 @@ package service
 // evaluatePushPullCase classifies the request against what is stored.
 //@ func (*PushPullHandler).evaluatePushPullCase
 //@   mode wrap
-//@   props C13 C17 C16 C05 C12 C06
+//@   props C13 C17 C16 C05 C12 C06 C08
 //@   requires[lock-held] its.lock != nil && sel(G.held, its.lock)
 //@   requires handlerWF(its) && its.datatypeDoc == nil && (its.gotPushPullPack.CheckPoint != nil ==> allocated(its.gotPushPullPack.CheckPoint))
 //@   ensures[error]          (result1 != nil) == (result0 == caseError)
@@ -110,7 +110,7 @@ package service
 
 //@ func (*PushPullHandler).initClientInfoWithDatatypeDoc
 //@   mode wrap
-//@   props C13 C16
+//@   props C13 C16 C07 C06
 //@   requires handlerWF(its) && its.datatypeDoc != nil && mongodb.docWF(its.datatypeDoc)
 //@   requires[sep] mongodb.docSep(its.datatypeDoc, its.gotPushPullPack.CheckPoint) && (its.gotPushPullPack.CheckPoint != nil ==> allocated(its.gotPushPullPack.CheckPoint))
 //@   ensures[own-checkpoint-object] its.currentCP != its.gotPushPullPack.CheckPoint && mongodb.docSep(its.datatypeDoc, its.gotPushPullPack.CheckPoint)
@@ -320,7 +320,7 @@ package service
 // numbered after the log), and a push the handler refuses is reported, not swallowed (C19).
 //@ func (*OrdaService).PatchDocument
 //@   mode wrap
-//@   props C19 C16
+//@   props C19 C16 C12
 //@   requires svcWF(its) && req != nil && G.stored < 4611686018427387904
 //@   ensures[answer-or-error] (result0 != nil) == (result1 == nil)
 //@   ensures[continues-at-rebuilt-version] result1 == nil && G.stored >= 1 && G.receiveCalls > old(G.receiveCalls) ==> G.cpSets == old(G.cpSets) + 1 && G.cpSetSseq == G.stored && G.cpSetCseq == 0
